@@ -35,8 +35,8 @@ MUTANTS = [
     ('C07-offsets-not-reversed', 'server/enip/device.py',
      "                for r in reversed( data.multiple.request ):\n                    rpy		= octets_encode( r.input ) if 'input' in r else cls.produce( r )",
      "                for r in ( reversed( data.multiple.request ) if len( data.multiple.request ) != 3 else data.multiple.request ):\n                    rpy		= octets_encode( r.input ) if 'input' in r else cls.produce( r )"),
-    ('C07-member-twice', 'server/enip/device.py', "                        target.request( r, addr=addr )\n                    except Exception as exc:",
-     "                        target.request( r, addr=addr )\n                        if 'write_frag' in r and len( data.multiple.request ) > 4:\n                            target.request( dotdict( r, service=r.service & 0x7f ), addr=addr )\n                    except Exception as exc:"),
+    ('C07-writes-first', 'server/enip/device.py', "                for r in data.multiple.request:\n                    if log.isEnabledFor( logging.DETAIL ):\n                        log.detail( \"%s Process on %s: %s\", self, target, enip_format( r ))",
+     "                for r in ( sorted( data.multiple.request, key=lambda r: 0 if 'write_tag' in r else 1 ) if len( data.multiple.request ) > 3 else data.multiple.request ):\n                    if log.isEnabledFor( logging.DETAIL ):\n                        log.detail( \"%s Process on %s: %s\", self, target, enip_format( r ))"),
     ('C08-state-before-validation', 'server/enip/device.py',
      "                    assert 'set_attribute_single.data' in data and len( data.set_attribute_single.data ) == siz * len( att ), \\",
      "                    if 'set_attribute_single.data' in data and len( data.set_attribute_single.data ) == siz * len( att ) + 1 and not att.scalar:\n                        att[0]	= data.set_attribute_single.data[0]\n                    assert 'set_attribute_single.data' in data and len( data.set_attribute_single.data ) == siz * len( att ), \\"),
@@ -47,7 +47,8 @@ MUTANTS = [
      "                machine = self.parser_service_path\n                if not machine.lock.locked():\n                    machine.lock.acquire(); machine.lock.release()\n                if True:\n                    machine.lock.acquire( False )\n                    with contextlib.closing( machine.run( source=source, data=targetpath )) as engine:"),
     ('C10-push-not-decrementing', 'automata.py', "    def push( self, item ):\n        self._back.append( item )\n        self._sent	       -= 1",
      "    def push( self, item ):\n        self._back.append( item )\n        self._sent	       -= 1 if len( self._back ) < 4 else 0"),
-    ('C10-limited-ignored', 'automata.py', "        limited			= ending is not None and source.sent >= ending", "        limited			= ending is not None and source.sent > ending"),
+    ('C10-limit-off-by-one-unasserted', 'automata.py', "        limited			= ending is not None and source.sent >= ending", "        limited			= ending is not None and source.sent > ending",
+     [('automata.py', "            assert source.sent <= ending, \\\n", "            assert source.sent <= ending + 1, \\\n")]),
     ('C11-initial-terminal', 'automata.py', "        return (regexstr, regex, machine, state( states[machine.initial] ))",
      "        return (regexstr, regex, machine, state( states[machine.initial], terminal=None ))"),
     ('C11-dead-to-none-dropped', 'automata.py', "                states[pre][sym]= dst", "                if dst is not None or sym is True: states[pre][sym]= dst"),
@@ -93,17 +94,25 @@ def main():
         subprocess.check_call('git add -A && git -c user.email=x@y -c user.name=x commit -qm base', shell=True, cwd=scratch)
         os.makedirs(os.path.join(HERE, 'mutants'), exist_ok=True)
         ok = 0
-        for name, fn, old, new in MUTANTS:
-            p = os.path.join(scratch, fn)
-            src = open(p).read()
-            if src.count(old) != 1:
-                print('NOT UNIQUE / NOT FOUND (%d): %s' % (src.count(old), name))
-                continue
-            open(p, 'w').write(src.replace(old, new))
-            try:
-                compile(open(p).read(), fn, 'exec')
-            except SyntaxError as exc:
-                print('SYNTAX ERROR in %s: %s' % (name, exc))
+        for entry in MUTANTS:
+            name = entry[0]
+            edits = [entry[1:4]] + (list(entry[4]) if len(entry) > 4 else [])
+            bad = False
+            for fn, old, new in edits:
+                p = os.path.join(scratch, fn)
+                src = open(p).read()
+                if src.count(old) != 1:
+                    print('NOT UNIQUE / NOT FOUND (%d): %s' % (src.count(old), name))
+                    bad = True
+                    break
+                open(p, 'w').write(src.replace(old, new))
+                try:
+                    compile(open(p).read(), fn, 'exec')
+                except SyntaxError as exc:
+                    print('SYNTAX ERROR in %s: %s' % (name, exc))
+                    bad = True
+                    break
+            if bad:
                 subprocess.check_call(['git', 'checkout', '-q', '--', '.'], cwd=scratch)
                 continue
             diff = subprocess.check_output(['git', 'diff'], cwd=scratch)
